@@ -528,6 +528,9 @@ def configs(tier, seed):
         for cone in (True, False):
             out.append({'variant': 'edges', 'model': model, 'mn': (2, 2, 1), 's': 1, 'cone': cone, 'nodes': 4, 'group': '(v) edge restraints = edge-spring energy:%s:%s' % (model, 'cone' if cone else 'cylinder'),
                         'm': 2, 'n': 1, 'timeout_ms': 300000})
+        # three axisymmetric terms: with the series starting at i1 = 0 (bc2..bc4) the first coupling of two non-zero terms is (1, 2)
+        out.append({'variant': 'edges', 'model': model, 'mn': (3, 1, 1), 's': 1, 'cone': True, 'nodes': 4, 'group': '(v) edge restraints = edge-spring energy:%s:cone-311' % model,
+                    'm': 3, 'n': 1, 'timeout_ms': 300000})
         if not quick:
             out.append({'variant': 'edges', 'model': model, 'mn': (3, 3, 1), 's': 1, 'cone': True, 'nodes': 4, 'group': '(v) edge restraints = edge-spring energy:%s:cone-331' % model,
                         'm': 3, 'n': 1, 'timeout_ms': 600000})
